@@ -56,7 +56,7 @@ def shifted(util, shift, bump):
 
 def run_call(c, call, db, betas):
     fn = call['fn']
-    util = shifted(B.mk_dict(c['util']), call.get('shift', 0), call.get('bump'))
+    util = shifted(B.mk_dict(c.get('util') or []), call.get('shift', 0), call.get('bump'))
     av = B.mk_dict(c.get('av'))
     want_trees = call.get('trees')
     res = {'alts': {}}
